@@ -2,8 +2,26 @@
 //! prints one JSON object: {found, assumption_violated, draw_error, failed:[..], covered:[..], checks, panicked}
 use std::panic;
 
+mod witness;
+
 fn main() {
     let args: Vec<String> = std::env::args().collect();
+    if args.len() == 3 && args[1] == "--witness" {
+        match witness::run(&args[2]) {
+            None => {
+                eprintln!("unknown witness");
+                std::process::exit(2)
+            }
+            Some(true) => {
+                println!("witness {}: DEFECT MANIFESTS", args[2]);
+                std::process::exit(1)
+            }
+            Some(false) => {
+                println!("witness {}: ok (defect absent)", args[2]);
+                std::process::exit(0)
+            }
+        }
+    }
     let (name, vals_json): (String, serde_json::Value) = if args.len() == 3 && args[1] == "--file" {
         let v: serde_json::Value =
             serde_json::from_str(&std::fs::read_to_string(&args[2]).expect("read")).expect("json");
